@@ -112,6 +112,11 @@ pub fn c02_scopes_do_not_interfere() {
     {
         let (o1, g1) = classify(r.try_borrow_mut::<A>());
         assert!(o1 == Outcome::Granted && g1.as_ref().unwrap().0 == a1, "the innermost A is the one borrowed");
+        // while the innermost A is held exclusively, a shared request through the SAME registry is a conflict: it must neither
+        // be granted against the shadowed A of the parent scope nor be reported as "not found"
+        let (oc, gc) = classify(r.try_borrow::<A>());
+        assert!(oc == Outcome::ConflictImm && gc.is_none(), "a shared request for a type held exclusively in the innermost scope must be refused with a conflict");
+        assert!(classify(r.try_get_value::<A>()).0 == Outcome::ConflictImm, "value reads go through the same flag");
         let (o2, g2) = classify(r.parent().unwrap().try_borrow_mut::<A>());
         assert!(o2 == Outcome::Granted && g2.as_ref().unwrap().0 == a0, "the same type in another scope must not interfere");
         drop(g1);
@@ -150,6 +155,13 @@ pub fn c02_conflict_through_parent_scope() {
         drop(g4);
         let (o7, g7) = classify(r.parent().unwrap().try_borrow::<A>());
         assert!(o7 == Outcome::Granted && g7.unwrap().0 == x, "the write through the child is what a reader of the parent scope sees");
+        // a type that lives only in the CHILD scope, held exclusively: a shared request is a conflict, not "not found"
+        {
+            let (ob, gb) = classify(r.try_borrow_mut::<B>());
+            assert!(ob == Outcome::Granted && gb.as_ref().unwrap().0 == b1);
+            assert!(classify(r.try_borrow::<B>()).0 == Outcome::ConflictImm, "a conflict in the innermost scope must be reported as a conflict");
+            drop(gb);
+        }
         // absent everywhere: an error, also on the recursive path
         assert!(classify(r.try_borrow_mut::<C>()).0 == Outcome::NotFound);
         assert!(classify(r.try_borrow::<C>()).0 == Outcome::NotFound);
